@@ -119,3 +119,42 @@ theorem core_wf (env : Env) : ∀ n e t b, e + t + b = n → CoreWf env e t b :=
     exact ih (e' + t' + b') (by omega) e' t' b' rfl
 
 end WuffsVerif.Parse
+
+namespace WuffsVerif.Parse
+open WuffsVerif.Token WuffsVerif.Gen.C11
+
+/-! ## the postfix chain is bounded -/
+
+/-- Length of the chain of calls / indexes / slices / selectors at the root of `n` (the
+left spine that `operandLoop` builds). -/
+def spine : Node → Nat
+  | .nil => 0
+  | .mk k _ a _ _ _ x _ _ _ _ _ =>
+    if k == KExpr && (a == IDOpenParen || a == IDOpenBracket || a == IDDotDot || a == IDDot)
+    then spine x + 1 else 0
+
+theorem spine_newExpr_le (f op id : Nat) (l m r : Node) (args : List Node) :
+    spine (newExpr f op id l m r args) ≤ spine l + 1 := by
+  simp only [newExpr, spine]
+  split <;> omega
+
+/-- Each iteration of the postfix loop adds one level and one to the count; the guard stops the
+loop when the count exceeds `MaxExprDepth`. -/
+theorem post_operandLoop_spine (env : Env) (pe : P Node) :
+    ∀ fuel cnt first lhs, Post (operandLoop env pe fuel cnt first lhs)
+      (fun n => spine n + cnt ≤ spine lhs + (MaxExprDepth + 1)) := by
+  intro fuel
+  induction fuel with
+  | zero => intro _ _ _; unfold operandLoop; exact post_throw _
+  | succ fuel ih =>
+    intro cnt first lhs
+    unfold operandLoop
+    post_auto
+    all_goals first
+      | (refine post_mono (ih _ _ _) ?_
+         intro n hn
+         have := spine_newExpr_le ‹_› ‹_› ‹_› lhs ‹_› ‹_› ‹_›
+         omega)
+      | skip
+
+end WuffsVerif.Parse
